@@ -275,7 +275,162 @@ pub fn record(args: &[String], seed: u64, tr: &mut Tr) -> Value {
         let _ = std::fs::remove_file(&path);
     }
     let nfile = if variants { record_file_errors(&bin, &dir, &tf, tr) } else { 0 };
-    json!({"circuits": ncirc.min(circuits.len()), "queries": nq, "malformed": nbad, "variants": nvar, "file_errors": nfile})
+    let ngen: usize = arg_num(args, "--generic", 0);
+    let genq = if ngen > 0 { record_generic(&bin, &dir, &tf, ngen, shots, per, &mut r, tr) } else { 0 };
+    json!({"circuits": ncirc.min(circuits.len()), "queries": nq, "malformed": nbad, "variants": nvar, "file_errors": nfile, "generic_circuits": ngen, "generic_queries": genq})
+}
+
+// ---------------------------------------------------------------------------------------------
+// GENERIC-PHASE tier (`--generic N`): "for all circuits over the supported unitary gate set (including ... non-Clifford+T
+// phases, to tolerance)". Circuits with rz / rx angles n/d * pi that are NOT multiples of pi/4 have no exact value in
+// Z[omega][1/2]; the oracle is the harness's float state vector (refeval::ref_circ, column |0..0>, itself validated by TLC
+// against CircSem on the exact fragment: RefEvalOK in the C08 traces). The comparisons happen here, TLC judges the booleans:
+//   circf    {n}                                   header (the circuit itself is kept for the replay file)
+//   ampf     {chars, close}                        printed |<b|C|0>|^2 within 1e-9 of the reference, and the hooked scalar's |.|^2 too
+//   expf     {chars, close}                        printed <psi|P|psi> within 1e-9
+//   samplef  {runs: [{nonzero, marg_ok, cond_ok, in_range, is_drawn_bits}]}
+//            every hooked scalar is the marginal P(prefix o 1), every p the CONDITIONAL probability (1e-8: p is a quotient),
+//            every printed sample has Born probability > 1e-12 and equals the bits drawn
+// for the default method, --cats, --bss, with and without -p 2.
+// ---------------------------------------------------------------------------------------------
+fn record_generic(bin: &str, dir: &str, tf: &str, ngen: usize, shots: usize, per: usize, r: &mut rand::rngs::StdRng, tr: &mut Tr) -> usize {
+    use crate::refeval::C;
+    let mut nq = 0usize;
+    let methods: Vec<Vec<String>> = vec![vec![], vec!["--cats".into()], vec!["--bss".into()]];
+    let pars: Vec<Vec<String>> = vec![vec![], vec!["-p".into(), "2".into()]];
+    for ci in 0..ngen {
+        let cj = crate::circ::generic_circuit(r, 3, 8, false, 1);
+        let n = cj["n"].as_u64().unwrap() as usize;
+        let dim = 1usize << n;
+        let psi: Vec<C> = crate::refeval::ref_circ(&cj)[..dim].to_vec();
+        let c = circ_from_json(&cj);
+        let path = format!("{dir}/g_{ci}.qasm");
+        std::fs::write(&path, c.to_qasm()).unwrap();
+        tr.group();
+        tr.emit(json!({"k": "circf", "n": n, "c": cj}));
+        let idx = |bits: &[u8]| bits.iter().fold(0usize, |a, &b| (a << 1) | b as usize);
+        // P(the first len(prefix) qubits read `prefix`)
+        let marg = |prefix: &[u8]| -> f64 {
+            let k = prefix.len();
+            (0..dim).filter(|i| (0..k).all(|q| ((i >> (n - 1 - q)) & 1) as u8 == prefix[q])).map(|i| psi[i].norm_sqr()).sum()
+        };
+        // ---- amplitudes ----
+        let mut bitstrs = all_strings(&['0', '1'], n);
+        for i in (1..bitstrs.len()).rev() {
+            bitstrs.swap(i, r.random_range(0..=i));
+        }
+        for (qi, bs) in bitstrs.iter().take(per).enumerate() {
+            let (m, p) = (methods[qi % 3].clone(), pars[(qi / 3) % 2].clone());
+            let mut a: Vec<String> = vec!["sim".into(), path.clone(), "-a".into(), bs.clone()];
+            a.extend(m.clone());
+            a.extend(p.clone());
+            let out = run(bin, &a, tf);
+            let bits: Vec<u8> = bs.bytes().map(|b| b - b'0').collect();
+            let want = psi[idx(&bits)].norm_sqr();
+            let mut e = json!({"k": "ampf", "chars": chars(bs), "method": m, "par": !p.is_empty(), "exit": out.exit, "panicked": out.panicked});
+            if out.exit == 0 && out.hooks.len() == 1 {
+                let (_, cval, _) = raw_scalar(&out.hooks[0]["raw"]);
+                let printed: f64 = out.stdout.trim().parse().unwrap_or(f64::NAN);
+                e["close"] = json!((printed - want).abs() <= 1e-9 && (cval.norm_sqr() - want).abs() <= 1e-9);
+                e["res"] = json!("ok");
+            } else {
+                e["close"] = json!(false);
+                e["res"] = json!(if out.exit == 0 { "nohook" } else { "error" });
+            }
+            tr.emit(e);
+            nq += 1;
+        }
+        // ---- expectation values ----
+        let mut ps = all_strings(&['I', 'X', 'Y', 'Z'], n);
+        for i in (1..ps.len()).rev() {
+            ps.swap(i, r.random_range(0..=i));
+        }
+        for (qi, pstr) in ps.iter().take(per + 2).enumerate() {
+            let (m, p) = (methods[(qi + 1) % 3].clone(), pars[(qi / 2) % 2].clone());
+            let mut a: Vec<String> = vec!["sim".into(), path.clone(), "-e".into(), pstr.clone()];
+            a.extend(m.clone());
+            a.extend(p.clone());
+            let out = run(bin, &a, tf);
+            // <psi| P |psi> with P = tensor of Paulis, qubit 0 = first character
+            let mut acc = C::new(0.0, 0.0);
+            for i in 0..dim {
+                // P|i> = phase * |j>
+                let (mut j, mut ph) = (i, C::new(1.0, 0.0));
+                for (q, ch) in pstr.chars().enumerate() {
+                    let bit = (i >> (n - 1 - q)) & 1;
+                    match ch {
+                        'X' => j ^= 1 << (n - 1 - q),
+                        'Y' => {
+                            j ^= 1 << (n - 1 - q);
+                            ph *= if bit == 0 { C::new(0.0, 1.0) } else { C::new(0.0, -1.0) };
+                        }
+                        'Z' => {
+                            if bit == 1 {
+                                ph = -ph;
+                            }
+                        }
+                        _ => {}
+                    }
+                }
+                acc += psi[j].conj() * ph * psi[i];
+            }
+            let mut e = json!({"k": "expf", "chars": chars(pstr), "method": m, "par": !p.is_empty(), "exit": out.exit, "panicked": out.panicked});
+            if out.exit == 0 && out.hooks.len() == 1 {
+                let printed: f64 = out.stdout.trim().parse().unwrap_or(f64::NAN);
+                e["close"] = json!((printed - acc.re).abs() <= 1e-9 && acc.im.abs() <= 1e-9);
+                e["res"] = json!("ok");
+            } else {
+                e["close"] = json!(false);
+                e["res"] = json!(if out.exit == 0 { "nohook" } else { "error" });
+            }
+            tr.emit(e);
+            nq += 1;
+        }
+        // ---- samples ----
+        for rep in 0..2usize {
+            let (m, p) = (methods[(ci + rep) % 3].clone(), pars[rep % 2].clone());
+            let mut a: Vec<String> = vec!["sim".into(), path.clone(), "-s".into(), shots.to_string()];
+            a.extend(m.clone());
+            a.extend(p.clone());
+            let out = run(bin, &a, tf);
+            let lines: Vec<&str> = out.stdout.lines().filter(|l| !l.trim().is_empty()).collect();
+            let mut e = json!({"k": "samplef", "method": m, "par": !p.is_empty(), "exit": out.exit, "panicked": out.panicked, "shots": shots});
+            if out.exit == 0 && out.hooks.len() == 2 * shots * n && lines.len() == shots {
+                let mut sh = vec![];
+                for s in 0..shots {
+                    let (mut marg_ok, mut cond_ok, mut in_range, mut pre_ok) = (true, true, true, true);
+                    let mut drawn: Vec<u8> = vec![];
+                    for k in 0..n {
+                        let hs = &out.hooks[2 * (s * n + k)];
+                        let hd = &out.hooks[2 * (s * n + k) + 1];
+                        let (_, cval, _) = raw_scalar(&hs["raw"]);
+                        let bits: Vec<u8> = hd["bits"].as_str().unwrap().bytes().map(|b| b - b'0').collect();
+                        let p: f64 = hd["p"].as_str().unwrap().parse().unwrap_or(f64::NAN);
+                        pre_ok &= bits.len() == k + 1 && bits[..k] == drawn[..];
+                        let mut one = drawn.clone();
+                        one.push(1);
+                        let (joint, pre) = (marg(&one), marg(&drawn));
+                        marg_ok &= (cval.re - joint).abs() <= 1e-9 && cval.im.abs() <= 1e-9;
+                        cond_ok &= pre > 1e-12 && (p - joint / pre).abs() <= 1e-8;
+                        in_range &= (0.0..=1.0).contains(&p);
+                        drawn.push(*bits.last().unwrap());
+                    }
+                    let printed: Vec<u8> = lines[s].trim().bytes().map(|b| b.wrapping_sub(b'0')).collect();
+                    let nonzero = printed.len() == n && printed.iter().all(|&b| b <= 1) && psi[idx(&printed)].norm_sqr() > 1e-12;
+                    sh.push(json!({"nonzero": nonzero, "marg_ok": marg_ok, "cond_ok": cond_ok, "in_range": in_range, "is_drawn_bits": pre_ok && printed == drawn}));
+                }
+                e["res"] = json!("ok");
+                e["runs"] = json!(sh);
+            } else {
+                e["res"] = json!(if out.exit == 0 { "nohook" } else { "error" });
+                e["runs"] = json!([]);
+            }
+            tr.emit(e);
+            nq += 1;
+        }
+        let _ = std::fs::remove_file(&path);
+    }
+    nq
 }
 
 // ---------------------------------------------------------------------------------------------
